@@ -24,7 +24,7 @@ def hex (s : String) : String :=
 
 /-- names are printed raw when plain, hex-encoded otherwise (same rule in the harness) -/
 def encName (s : String) : String :=
-  if !s.isEmpty && s.toList.all (fun c => c.isAlphanum || c == '_') then s else "x" ++ hex s
+  if !s.isEmpty && !s.startsWith "x" && s.toList.all (fun c => c.isAlphanum || c == '_') then s else "x" ++ hex s
 
 /-- decimal digits of a natural number by divide and conquer (`toString` is quadratic, which
 takes minutes for numbers of a few hundred thousand digits) -/
